@@ -728,6 +728,11 @@ def check_state(ctx, cfg, history, world, level):
             base = ["moneyness", "time_to_maturity"]
         else:
             base = ["underlier_spot", "zeros"]
+        # the no-hedge benchmark: Naked() returns zeros, in the dtype of its input
+        from pfhedge.nn import Naked
+        hn = Hedger(Naked(), base)
+        query("Hedger.compute_hedge", "compute_hedge[Naked]", lambda: hn.compute_hedge(d), D)
+        query("Hedger.compute_pl", "compute_pl[Naked]", lambda: hn.compute_pl(d), D)
         variants = [("linear", base, len(base)),
                     # stepwise hedger fed with a down-barrier indicator
                     ("barrier_prev", base + [Barrier(1.0, up=False), "prev_hedge"], len(base) + 2)]
